@@ -15,11 +15,11 @@ CHECKS = {
 }
 
 CHECKS["C04"] = dict(
-    text="Bounded symbolic model checking of the COO accumulator (coo_append, coo_sum_duplicates, merge_sum_duplicates, merge_all_sum_duplicates, coo_increase_mem) driven as the numba_build_* drivers do: for every sequence of K appends with symbolic keys and positive real values, every buffer capacity in the grid and the sort threshold lowered so that every threshold (sort, merge, growth) is crossed within the bound, each key ends up stored exactly once with the sum of its values and its own row/col.",
-    note="Bounds: capacity 4..8 (12 thorough), COO_QUICKSORT_LIMIT lowered to 2..4, K <= 6 (8), 2-3 distinct keys; float32 summation order outside (Real arithmetic). Schedule / chunking / buffer-sizing clauses: see evidence 'uncovered' until their harness groups are added.",
+    text="Bounded symbolic model checking of the COO accumulator (coo_append, coo_sum_duplicates, merge_sum_duplicates, merge_all_sum_duplicates, coo_increase_mem) driven as the numba_build_* drivers do: for every sequence of K appends with symbolic keys and positive real values, every buffer capacity in the grid and the sort threshold lowered so that every threshold (sort, merge, growth) is crossed within the bound, each key ends up stored exactly once with the sum of its values and its own row/col. One inductive merge_sum_duplicates step from EVERY run-stack state satisfying the representation invariant (occupancy patterns of a stack of depth <= 3 / 4, symbolic keys and values, stale slots) preserves the per-key mass and re-establishes the invariant, which covers histories of any length (the 5th-batch state of a 65 536-entry threshold included). Class level: TokenCooccurrence and the MultiSet / Timed / Ngram co-occurrence vectorizers give the same matrix for n_threads 1..3, 1 kB buffers and tiny fixed buffer capacities (growth inside every driver loop) as for the defaults.",
+    note="Bounds: capacity 4..8 (12 thorough), COO_QUICKSORT_LIMIT lowered to 2..4, K <= 6 (8), 2-3 distinct keys; float32 summation order outside (Real arithmetic). Real OS threads are not run: chunk tasks are sequentialised by the dask model and their matrices summed exactly.",
     ref="4/C04")
 CHECKS["C03"] = dict(
-    text="Bounded symbolic model checking of the real numba_build_skip_grams + window_at_index + flat/harmonic/geometric kernels + accumulator against a reference written from the statement: for all token sequences within the bound, all per-token radii, offsets, kernel-normalisation flags, geometric powers and positive mix weights the stored cells equal the windowed kernel-weighted count, stay inside their window's column block and never cross a document boundary; 'before' is the transpose of 'after' for equal fixed radii.",
+    text="Bounded symbolic model checking of the real numba_build_skip_grams + window_at_index + flat/harmonic/geometric kernels + accumulator against a reference written from the statement: for all token sequences within the bound, all per-token radii, offsets, kernel-normalisation flags, geometric powers and positive mix weights the stored cells equal the windowed kernel-weighted count, stay inside their window's column block and never cross a document boundary; 'before' is the transpose of 'after' for equal fixed radii; two windows whose totals are combined with kernel-level normalisation and offsets that can empty one side; class level: orientation expansion with mixed orientation lists, block order and column labels, frequency-dependent ('variable') radii.",
     note="Bounds: <= 3-4 tokens in <= 3 documents, vocabulary 2-3, radius <= 2-3, <= 2 windows. Real arithmetic (float32 accumulation outside).",
     ref="4/C03")
 CHECKS["C09"] = dict(
@@ -33,7 +33,7 @@ CHECKS["C19"] = dict(
     ref="4/C19")
 
 CHECKS["C06"] = dict(
-    text="Bounded symbolic model checking of the real NgramVectorizer (exact / subgrams, n <= 2 quick, 3 thorough, masking, pruning), SkipgramVectorizer (fixed radius, flat / harmonic, fixed dictionaries with unobserved tokens), EdgeListVectorizer (duplicate edges, joint_space, fixed row dictionary) and NgramVectorizer.__add__: with tokens / labels as unconstrained integers (a path fixes only their equality and order pattern) every cell of fit_transform and transform equals the count / summed kernel weight / summed edge value of the statement, and the sum of two unigram models equals a fit on the concatenated corpora (columns, training matrix up to column order, transform).",
+    text="Bounded symbolic model checking of the real NgramVectorizer (exact / subgrams, n <= 2 quick, 3 thorough, masking, pruning), SkipgramVectorizer (fixed radius, flat / harmonic, fixed dictionaries with unobserved tokens), EdgeListVectorizer (duplicate edges, joint_space, fixed row dictionary) and NgramVectorizer.__add__: with tokens / labels as unconstrained integers (a path fixes only their equality and order pattern) every cell of fit_transform and transform equals the count / summed kernel weight / summed edge value of the statement, and the sum of two unigram models equals a fit on the concatenated corpora (columns, training matrix up to column order, transform) for every iteration order of the set of new words (case split; replayed with string tokens under several PYTHONHASHSEEDs).",
     note="Bounds: <= 5 symbols (7 thorough) over fit + transform corpora, <= 4 edges; Real arithmetic for weights. Known finding F19 (subgrams 1-gram columns) is reported as KNOWN-FINDING, every other cell of that mode is still checked.",
     ref="4/C06")
 CHECKS["C16"] = dict(
@@ -41,30 +41,30 @@ CHECKS["C16"] = dict(
     note="Bounds: <= 5 characters (7 thorough) over fit + transform strings, max_dict_size 2..8, max_columns 2..3. murmurhash arithmetic is replaced by an arbitrary function (stub listed in the evidence).",
     ref="4/C16")
 CHECKS["C01"] = dict(
-    text="Bounded symbolic model checking of fit followed by transform on an independent symbolic batch for Ngram, Skipgram, EdgeList, LZCompression and BytePairEncoding('matrix'): no exception escapes transform, the result has one row per item (fitted shape for EdgeList) and exactly the fitted number of columns, and every cell equals the count of the fitted column's label in the item - unseen tokens / labels / phrases / codes are ignored.",
-    note="Bounds as in C06 / C16 / C09. Histogram is covered under C20; KDE, Distribution, Wasserstein family and the co-occurrence family's transform are listed as uncovered in the evidence.",
+    text="Bounded symbolic model checking of fit followed by transform on an independent symbolic batch for Ngram, Skipgram, EdgeList (incl. user dictionaries with gapped indices), LZCompression, BytePairEncoding('matrix'), TokenCooccurrence and (shape only) the MultiSet / Timed / Ngram co-occurrence vectorizers: no exception escapes transform, the result has one row per item (fitted shape for EdgeList) and exactly the fitted number of columns, and every cell equals the count of the fitted column's label in the item - unseen tokens / labels / phrases / codes are ignored.",
+    note="Bounds as in C06 / C16 / C09. Histogram is covered under C20; KDE, Distribution and the Wasserstein family are listed as uncovered in the evidence.",
     ref="4/C01")
 CHECKS["C02"] = dict(
-    text="Symbolic differential of the real pipelines: for Ngram, Skipgram, EdgeList and BytePairEncoding (sequences) fit returns the estimator itself and fit(X).transform(X) equals fit_transform(X) cell by cell (code by code) for every corpus within the bound, including masking and pruning configurations.",
-    note="Bounds as in C06 / C09. Co-occurrence family, transformers and the optimal-transport classes are listed as uncovered until their harnesses are added.",
+    text="Symbolic differential of the real pipelines: for Ngram, Skipgram, EdgeList, BytePairEncoding (sequences), TokenCooccurrence, the MultiSet / Timed / Ngram co-occurrence vectorizers, RowDenoising and LabelledTreeCooccurrence fit returns the estimator itself and fit(X).transform(X) equals fit_transform(X) cell by cell (code by code) for every corpus within the bound, including masking and pruning configurations.",
+    note="Bounds as in C06 / C09. InformationWeight / CountFeatureCompression / SlidingWindow, Histogram / KDE / Distribution and the optimal-transport classes are listed as uncovered (C08 decides that transform hands the kernels the same arguments as fit).",
     ref="4/C02")
 CHECKS["C12"] = dict(
-    text="Singleton differential on the real transform of Ngram, Skipgram and LZCompression: for an arbitrary fitted model and a symbolic batch, row i of transform(batch) equals transform([item i]) - which subsumes concatenation, permutation and duplication of batches.",
-    note="Bounds: batches of <= 2-3 items, <= 3 symbols per item. Other estimators listed as uncovered in the evidence.",
+    text="Singleton differential on the real transform of Ngram, Skipgram, LZCompression, BytePairEncoding(matrix), Histogram, InformationWeight, RowDenoising and CountFeatureCompression (constructed fitted state), plus the Wasserstein plumbing (every row embedded once from its own segment for every block size) and the chunk loop of the real per-row LOT kernels: for an arbitrary fitted model and a symbolic batch, row i of transform(batch) equals transform([item i]) - which subsumes concatenation, permutation and duplication of batches.",
+    note="Bounds: batches of <= 2-3 items, <= 3 symbols per item. KDE / Distribution / SlidingWindow and the Sinkhorn batch coupling are listed as uncovered in the evidence.",
     ref="4/C12")
 
 CHECKS["C05"] = dict(
-    text="(a) Bounded symbolic model checking of the real preprocess_token_sequences / prune_token_dictionary / construct_document_frequency on symbolic corpora with *symbolic* occurrence, frequency and document bounds, excluded set and max_unique_tokens against the set comprehension of the statement (kept set, top-k rule, indices 0..n-1 in sorted token order, inverse dictionary, re-indexed sequences). (b) IEEE-754 lemma on the real construct_token_dictionary_and_frequency + prune_token_dictionary with bit-vector backed counts and numpy NEP-50 float32/float64 promotion: for every total n up to the bound and every count c, a token occurring exactly min_occurrences / max_occurrences times is kept and the adjacent count on the wrong side is pruned.",
+    text="(a) Bounded symbolic model checking of the real preprocess_token_sequences / prune_token_dictionary / construct_document_frequency on symbolic corpora with *symbolic* occurrence, frequency and document bounds, excluded set and max_unique_tokens against the set comprehension of the statement (kept set, top-k rule, indices 0..n-1 in sorted token order, inverse dictionary, re-indexed sequences). (c) second-stage n-gram pruning of NgramVectorizer (ngram_size 2) with symbolic occurrence / document bounds: the fitted columns are exactly the bigrams of the token-pruned sequences meeting every bound. (b) IEEE-754 lemma on the real construct_token_dictionary_and_frequency + prune_token_dictionary with bit-vector backed counts and numpy NEP-50 float32/float64 promotion: for every total n up to the bound and every count c, a token occurring exactly min_occurrences / max_occurrences times is kept and the adjacent count on the wrong side is pruned.",
     note="Bounds: (a) <= 4 tokens in <= 3 documents (6 thorough); (b) n <= 32 quick / 512 thorough, c symbolic. excluded_token_regex is outside (regular expressions); np.bincount is stubbed in (b).",
     ref="4/C05")
 
 CHECKS["C11"] = dict(
-    text="(a) Bounded symbolic model checking of one step of the real em_update_matrix from an arbitrary state: every subset of stored CSR cells, symbolic positive priors, arbitrary initial posterior, symbolic window contents and kernel weights - mass lands only in the target row's slice, sums to exactly one (zero when no context cell is stored), each cell receives kernel*prior/sum, and no access leaves the row (the array model's bounds check). One inductive step covers occurrence sequences of any length. (b) TokenCooccurrenceVectorizer with n_iter 0..2 and a symbolic epsilon in [0,1] against a dense implementation of the documented procedure, with the consequences (entries in [0,1], column sums <= 1, support non-increasing).",
+    text="(a) Bounded symbolic model checking of one step of the real em_update_matrix from an arbitrary state: every subset of stored CSR cells, symbolic positive priors, arbitrary initial posterior, symbolic window contents and kernel weights - mass lands only in the target row's slice, sums to exactly one (zero when no context cell is stored), each cell receives kernel*prior/sum, and no access leaves the row (the array model's bounds check). One inductive step covers occurrence sequences of any length. (b) TokenCooccurrenceVectorizer with n_iter 0..2 and a symbolic epsilon in [0,1] against a dense implementation of the documented procedure, with the consequences (entries in [0,1], column sums <= 1, support non-increasing), including several chunks (n_threads > 1) with several sweeps.",
     note="Bounds: (a) vocabulary 2 (3 thorough), <= 2 windows of <= 2-3 contexts; (b) <= 3-4 tokens, radius <= 2. Non-linear real arithmetic decided by z3 (nlsat) without time-outs at these sizes. Other drivers share the kernel; float32 rounding outside.",
     ref="4/C11")
 CHECKS["C14"] = dict(
-    text="Bounded symbolic model checking of masking on the real TokenCooccurrenceVectorizer and NgramVectorizer: with mask_string unset removed tokens are deleted (neighbours become adjacent), with mask_string set they are replaced in place so that window contents and distances are those of the masked sequence; the mask is exactly one extra vocabulary entry with the last index; with nullify_mask the mask row and all mask columns are zero and every other cell equals the masked computation without the mask's contributions - all against the reference written from the statement, for fit_transform, fit and transform.",
-    note="Bounds: <= 3-5 tokens, radius <= 2, excluded-token and min_occurrences pruning. Timed / multiset / n-gram co-occurrence and tree vectorizers share the code pattern but are not encoded (uncovered).",
+    text="Bounded symbolic model checking of masking on the real TokenCooccurrenceVectorizer (fixed and frequency-dependent radii), NgramVectorizer and LabelledTreeCooccurrenceVectorizer (removed labels contracted away / kept under the mask / nullified, four orientations): with mask_string unset removed tokens are deleted (neighbours become adjacent), with mask_string set they are replaced in place so that window contents and distances are those of the masked sequence; the mask is exactly one extra vocabulary entry with the last index; with nullify_mask the mask row and all mask columns are zero and every other cell equals the masked computation without the mask's contributions - all against the reference written from the statement, for fit_transform, fit and transform.",
+    note="Bounds: <= 3-5 tokens, radius <= 2, excluded-token and min_occurrences pruning. Timed / multiset / n-gram co-occurrence vectorizers share the code pattern but are not encoded (uncovered).",
     ref="4/C14")
 
 CHECKS["C17"] = dict(
